@@ -39,7 +39,7 @@ def scenario(hist, entry, rng, weighted, variant):
             lifecycle.do_fit(hist, a, bx, by, entry, seed, "bad:" + desc, extra=kw, expect_ok=False)
     extra = {}
     if weighted:
-        extra["sample_weight"] = numpy.array([float(1 + (i % 3)) for i in range(X.shape[0] if hasattr(X, "shape") else len(X))])
+        extra["sample_weight"] = numpy.array([float(2 + (i % 3)) for i in range(X.shape[0] if hasattr(X, "shape") else len(X))])
     ok, _ = lifecycle.do_fit(hist, a, X, y, entry, seed, "D1" + ("w" if weighted else ""), extra=extra)
     if not ok:
         return
